@@ -19,6 +19,12 @@ type MetaData struct {
 
 // CopyNew returns a copy of the target.
 func (m MetaData) CopyNew() *MetaData {
+	// m is already a copy of the receiver, except for the big numbers of its
+	// scale, whose storage an assignment shares.
+	m.Scale.Value = *new(big.Float).Copy(&m.Scale.Value)
+	if m.Scale.Mod != nil {
+		m.Scale.Mod = new(big.Int).Set(m.Scale.Mod)
+	}
 	return &m
 }
 
